@@ -22,7 +22,7 @@ type jsFlags struct {
 	seenString  bool // $methodSet's `seen` is keyed by the type string
 	cacheString bool // implementedBy / missingMethodFor are keyed by the type string
 	fieldOrder  bool // forwarding methods are installed field by field (first field wins), not by depth
-	noRecvCopy  bool // a value receiver is the caller's object unless the call site is a direct call
+	noRecvCopy  bool // a value receiver is the caller's object unless the call site copies (direct calls, T.m(x)) or T's own method is reached through the cloning proxy of T.prototype (interface holding a struct value)
 }
 
 var allDefects = jsFlags{true, true, true, true, true, true, true}
@@ -49,21 +49,28 @@ type msEntry struct {
 	path  []int // embedded fields (0-based type indices) to the owner
 }
 
+// asRes is the answer of $assertType to an interface: success, or the method
+// named in the TypeAssertionError.
+type asRes struct {
+	ok   bool
+	miss string
+}
+
 type jsModel struct {
 	t        *Table
 	fl       jsFlags
 	ms       map[[2]int]map[string]msEntry // (type, ptr) -> key -> entry
-	cache    map[string]bool               // implementedBy
-	asOK     [][]bool                      // [k][q] result of the assertion table in program order
+	cache    map[string]asRes              // implementedBy / missingMethodFor
+	asOK     [][]asRes                     // [k][q] result of the assertion table in program order
 	helperOK map[int]bool                  // disp index -> result of the helper probe's assertion
 }
 
 func newJSModel(t *Table, fl jsFlags) *jsModel {
-	m := &jsModel{t: t, fl: fl, ms: map[[2]int]map[string]msEntry{}, cache: map[string]bool{}}
+	m := &jsModel{t: t, fl: fl, ms: map[[2]int]map[string]msEntry{}, cache: map[string]asRes{}}
 	nt := len(t.Types)
-	m.asOK = make([][]bool, 2*nt)
+	m.asOK = make([][]asRes, 2*nt)
 	for k := range m.asOK {
-		m.asOK[k] = make([]bool, len(t.sp.Ifaces))
+		m.asOK[k] = make([]asRes, len(t.sp.Ifaces))
 	}
 	// the assertion table runs interface by interface, dynamic types in order
 	for q := range t.sp.Ifaces {
@@ -86,10 +93,10 @@ func newJSModel(t *Table, fl jsFlags) *jsModel {
 		r, ok := m.cache[ck]
 		if !ok {
 			e, has := m.methodSet(k/2, k%2 == 1)[m.key(mid)]
-			r = has && e.mid == mid
+			r = asRes{ok: has && e.mid == mid, miss: mid[1]}
 			m.cache[ck] = r
 		}
-		m.helperOK[di] = r
+		m.helperOK[di] = r.ok
 	}
 	return m
 }
@@ -200,16 +207,22 @@ func (m *jsModel) methodSet(i int, ptr bool) map[string]msEntry {
 	return base
 }
 
-// implements models the uncached part of $assertType.
-func (m *jsModel) implements(k, q int) bool {
+// implements models the uncached part of $assertType: the interface's methods
+// are tried in the order of the emitted method list (go/types' order: by
+// identifier - exported names, then package-qualified unexported ones; for the
+// interfaces of the scenarios that is byte order of the names) and the first
+// one the method set lacks is remembered as the missing method.
+func (m *jsModel) implements(k, q int) asRes {
 	set := m.methodSet(k/2, k%2 == 1)
-	for _, tm := range m.t.Imeth[q] {
+	ims := append([][2]string{}, m.t.Imeth[q]...)
+	sort.Slice(ims, func(a, b int) bool { return ims[a][1] < ims[b][1] })
+	for _, tm := range ims {
 		e, ok := set[m.key(tm)]
 		if !ok || e.mid != tm {
-			return false
+			return asRes{false, tm[1]}
 		}
 	}
-	return true
+	return asRes{true, "ok"}
 }
 
 func (m *jsModel) ifaceIdent(q int) string {
@@ -237,7 +250,7 @@ func (m *jsModel) dynKey(k int) string {
 	return s
 }
 
-func (m *jsModel) assert(k, q int) bool {
+func (m *jsModel) assert(k, q int) asRes {
 	ck := m.ifaceIdent(q) + "|" + m.dynKey(k)
 	if r, ok := m.cache[ck]; ok {
 		return r
@@ -307,6 +320,13 @@ func (m *jsModel) dispatch(d Disp, nameIdx int, helper bool) (string, bool) {
 	}
 	b := a
 	shared := m.fl.noRecvCopy && d.Form != "direct"
+	if d.Form == "ifaceV" || d.Form == "mvalIV" {
+		// an interface holding a struct VALUE: T's own methods are reached through the proxy on
+		// T.prototype, which clones the boxed value (repaired in /repo by b5c7281); a promoted
+		// method is reached through the forwarders, which hand the embedded object itself to
+		// the callee
+		shared = shared && len(e.path) > 0
+	}
 	if d.Form == "mexprV" {
 		// T.m(x) copies x at the call site: only an object behind an embedded pointer stays shared
 		shared = shared && e.ind
@@ -347,7 +367,7 @@ func specPath(d Disp) []int {
 func (m *jsModel) switchArm(k int, arms []Arm) int {
 	for n, a := range arms {
 		if a.Kind == "i" {
-			if m.assert(k, a.Idx-1) {
+			if m.assert(k, a.Idx-1).ok {
 				return n + 1
 			}
 		} else if a.Idx-1 == k/2 && a.Ptr == (k%2 == 1) {
@@ -362,9 +382,8 @@ func (m *jsModel) predict(c cell, names []string) (string, bool) {
 	t := m.t
 	switch c.kind {
 	case "as":
-		// only the success of the assertion is modelled; the second field is the spec's
-		ok := m.asOK[c.a][c.b]
-		return fmt.Sprint(ok), true
+		r := m.asOK[c.a][c.b]
+		return fmt.Sprintf("%v %s", r.ok, r.miss), true
 	case "sw":
 		return fmt.Sprintf("%d %d", m.switchArm(c.a, t.Arms1), m.switchArm(c.a, t.Arms2)), true
 	case "disp":
